@@ -286,6 +286,9 @@ func (s *Sched) waitLogFor(d time.Duration, pred func(mem.Ev) bool) bool {
 func PlaySched(beh M) ([]M, error) {
 	cfgS := Sub(beh, "cfg")
 	cfg := M{"auth": "none", "tls": "nil", "params": M{}, "version": "", "mw": []any{}, "term": "none", "limit": 8192}
+	if I(beh, "_i")%5 == 3 {
+		cfg["ctx"] = "dead" // sessions whose context has ended are served, and accounted for, like any other
+	}
 	x, err := NewExec(cfg)
 	if err != nil {
 		return nil, err
@@ -303,6 +306,16 @@ func PlaySched(beh M) ([]M, error) {
 		}
 		x.Log.Append(mem.Ev{"k": "served", "err": e})
 	}()
+
+	// every other schedule: the same server serves a second listener as well - Close stops every accept loop and
+	// each Serve returns nil
+	var served2 chan error
+	if I(beh, "_i")%2 == 1 {
+		lis2 := mem.NewListener(nil)
+		served2 = make(chan error, 1)
+		go func() { served2 <- x.Srv.Serve(lis2) }()
+		defer lis2.Close()
+	}
 
 	// connections: startup, and a prepared portal "p", outside schedule control
 	s.mu.Lock()
@@ -545,6 +558,14 @@ func PlaySched(beh M) ([]M, error) {
 		return n >= len(started)
 	})
 	servedNil := s.waitLog(func(e mem.Ev) bool { return e["k"] == "served" && e["err"] == "nil" })
+	if served2 != nil {
+		select {
+		case err := <-served2:
+			servedNil = servedNil && err == nil
+		case <-time.After(s.StepTimeout):
+			servedNil = false // the second accept loop is still running after Close
+		}
+	}
 	x.Log.Append(mem.Ev{"k": "final", "allret": allret, "served": servedNil})
 	x.Lis.Close()
 
